@@ -64,4 +64,9 @@ DemandConserved ==
 TapConventionUndone == \A br \in BranchIds : TapAfterRoute(cfg, br) = TapOf(cfg, br)
 \* the in-memory route hands every field over
 PpcRouteLossless == cfg.route = "ppc" => out.lost = {}
+\* REQUIRED of every route, and NOT in Convert.cfg: the modelled file route (from_mpc.py:126-145) drops "branch_g", so TLC
+\* refutes this on exactly the mpc configurations with an energised transformer with iron losses.  By the verdict
+\* discipline a model-level counterexample is not reported by itself: harness/checks/c21.py replays those configurations
+\* on the real converters, where they show up as C21_SlackPower / C21_TotalLosses violations keyed "lost=branch_g".
+EveryRouteLossless == out.lost = {}
 =============================================================================
